@@ -925,6 +925,10 @@ def Optimize(
     node = node.Visit(MergeTypeParameters())
     node = node.Visit(visitors.AdjustSelf())
   node = node.Visit(SimplifyContainers())
+  if deps:
+    # SimplifyContainers can expose a bare class (list[Any] -> list) that the
+    # hierarchy pass above could not yet relate to its subclasses.
+    node = node.Visit(SimplifyUnionsWithSuperclasses(hierarchy))
   if deps and can_do_lookup:
     node = visitors.LookupClasses(node, deps, ignore_late_types=True)
   return node
